@@ -22,7 +22,14 @@ use std::collections::{BTreeMap, BinaryHeap};
 pub enum Ev {
     /// try to deploy candidate version `candidate`; `text_gate`: decide through
     /// service_compatible on harness-printed .did text instead of the type-level checker
-    Upgrade { at: u32, candidate: usize, text_gate: bool },
+    Upgrade {
+        at: u32,
+        candidate: usize,
+        text_gate: bool,
+        /// definitions of the old program that are printed under a name existing only there (text gate)
+        #[serde(default)]
+        old_only: Vec<String>,
+    },
     /// a client appears and pins itself to the version deployed at that moment
     Join { at: u32, client: usize },
     /// client calls a method; the call travels `net_delay`, the reply `reply_delay`;
@@ -44,6 +51,10 @@ impl Ev {
 pub struct Sc {
     pub stack_kib: usize,
     pub env: SEnv,
+    /// per candidate version: its own type definitions when they differ from `env`
+    /// (a definition may change under the same name from one version to the next)
+    #[serde(default)]
+    pub venvs: Vec<Option<SEnv>>,
     /// candidate service types; versions[0] is deployed unconditionally
     pub versions: Vec<SType>,
     /// the kind of step that produced candidate i from its predecessor
@@ -156,6 +167,55 @@ fn next_candidate(rng: &mut Rng, env: &SEnv, cur: &SType, k: &TyKnobs) -> (SType
     (SType::service(v), kind)
 }
 
+/// A definition D changes under its name from one version to the next (compatibly or not), the
+/// service reaches it through a wrapper definition W, and the upgrade is decided on .did text in
+/// which W (and/or D) carries a name that exists in the old program only.
+fn planted_definition_change(knobs: &mut Rng, wl: &mut Rng, sched: &mut Rng, stack_kib: usize) -> Sc {
+    let mut k = TyKnobs::draw(knobs);
+    k.defs = 0;
+    k.allow_empty = false;
+    k.refs = false;
+    k.max_depth = 1;
+    let empty = SEnv::new();
+    let l = |s: &str| SLabel::Named(s.to_string());
+    let d0 = SType::record(vec![(l("id"), SType::Prim(Prim::Nat)), (l("name"), SType::Prim(Prim::Text)), (l("extra"), gen_data_type(wl, &k, &empty))]);
+    let w = match wl.below(3) {
+        0 => SType::record(vec![(l("items"), SType::vec(SType::name("D"))), (l("next"), SType::opt(SType::Prim(Prim::Nat)))]),
+        1 => SType::opt(SType::name("D")),
+        _ => SType::variant(vec![(l("one"), SType::name("D")), (l("none"), SType::Prim(Prim::Null))]),
+    };
+    let mut env = SEnv::new();
+    env.0.insert("D".into(), d0.clone());
+    env.0.insert("W".into(), w);
+    let in_result = wl.chance(2, 3);
+    let svc = SType::service(vec![(
+        "get".into(),
+        if in_result { SType::Func { args: vec![SType::Prim(Prim::Nat)], rets: vec![SType::name("W")], mode: Mode::Query } } else { SType::Func { args: vec![SType::name("W")], rets: vec![], mode: Mode::Update } },
+    )]);
+    // the new version's D: a compatible or an incompatible change, in either direction
+    let d1 = match wl.below(5) {
+        0 => SType::record(vec![(l("id"), SType::Prim(Prim::Nat))]),                                                        // fields dropped
+        1 => SType::record(vec![(l("id"), SType::Prim(Prim::Int)), (l("name"), SType::Prim(Prim::Text)), (l("extra"), SType::Prim(Prim::Null))]), // nat -> int
+        2 => mutate(wl, &d0, &k.prims),
+        3 => upgrade_step(wl, &env, &d0, in_result, &k.prims).0,
+        _ => SType::record(vec![(l("id"), SType::Prim(Prim::Text)), (l("name"), SType::Prim(Prim::Text))]),
+    };
+    let mut env1 = env.clone();
+    env1.0.insert("D".into(), d1);
+    let old_only: Vec<String> = match sched.below(4) {
+        0 => vec!["W".into()],
+        1 => vec!["D".into()],
+        2 => vec!["W".into(), "D".into()],
+        _ => vec![],
+    };
+    let mut events = vec![Ev::Join { at: 0, client: 0 }, Ev::Upgrade { at: 50, candidate: 1, text_gate: true, old_only }, Ev::Join { at: 60, client: 1 }];
+    for i in 0..4u32 {
+        events.push(Ev::Call { at: if i % 2 == 0 { 40 } else { 70 } + i, client: (i % 2) as usize, method_pick: 0, vseed: wl.next_u64(), budget: wl.range(2, 30) as u32, net_delay: if i % 2 == 0 { 30 } else { 3 }, reply_delay: 5, relay: None, dup: false });
+    }
+    events.sort_by_key(|e| e.at());
+    Sc { stack_kib, env: env.clone(), venvs: vec![None, Some(env1)], versions: vec![svc.clone(), svc], kinds: vec!["initial".into(), "def:planted-change".into()], events }
+}
+
 const FAMILIES: [&str; 40] = [
     "RecV1", "RecV2", "RecV3", "RecV4", "VarV1", "VarV2", "Option<VarV1>", "Option<VarV2>", "Vec<RecV1>", "Vec<RecV2>", "Option<RecV3>", "FuncRef", "FuncRefV2", "ServRef", "ServRefV2", "(RecV1,VarV1)", "(RecV2,Option<VarV2>)",
     "BTreeMap<String,RecV1>", "BTreeMap<String,RecV2>", "Vec<Option<VarV1>>", "Vec<Option<VarV2>>", "(Nat)", "(Int)", "(Int,Option<String>)", "(Nat,String,u8)", "Option<(Int)>", "(Nat,Int)", "(Int,Nat)", "Nat", "Int", "Vec<Nat>",
@@ -169,6 +229,9 @@ pub fn generate(_prop: &str, _tier: Tier, seed: u64, run: u64) -> Sc {
     let mut net = rng.split("network");
     let mut sched = rng.split("schedule");
     let stack_kib = *knobs.pick(&[512usize, 1024, 8192]);
+    if knobs.chance(1, 8) {
+        return planted_definition_change(&mut knobs, &mut wl, &mut sched, stack_kib);
+    }
     let mut k = TyKnobs::draw(&mut knobs);
     k.defs = knobs.range(0, 4) as usize;
     k.allow_empty = false;
@@ -178,16 +241,40 @@ pub fn generate(_prop: &str, _tier: Tier, seed: u64, run: u64) -> Sc {
     let nver = knobs.range(1, 6) as usize;
     let mut versions = vec![v0];
     let mut kinds = vec!["initial".to_string()];
+    let mut venvs: Vec<Option<SEnv>> = vec![None];
+    let mut cur_env = env.clone();
     for _ in 0..nver {
-        let (c, kd) = next_candidate(&mut wl, &env, versions.last().unwrap(), &k);
+        if !cur_env.0.is_empty() && wl.chance(1, 4) {
+            // the step changes a type definition; the service keeps referring to it by name
+            let names: Vec<String> = cur_env.0.keys().cloned().collect();
+            let n = wl.pick(&names).clone();
+            let body = cur_env.0[&n].clone();
+            let down = wl.chance(1, 2);
+            let (b2, kd) = if wl.chance(1, 4) { (mutate(&mut wl, &body, &k.prims), "unrelated-rewrite") } else { upgrade_step(&mut wl, &cur_env, &body, down, &k.prims) };
+            let ok = match (&body, &b2) {
+                (SType::Func { .. }, SType::Func { .. }) | (SType::Service(_), SType::Service(_)) => true,
+                (SType::Func { .. }, _) | (SType::Service(_), _) | (_, SType::Name(_)) | (_, SType::Func { .. }) | (_, SType::Service(_)) => false,
+                _ => true,
+            };
+            if ok && b2 != body {
+                cur_env.0.insert(n, b2);
+                versions.push(versions.last().unwrap().clone());
+                kinds.push(format!("def:{kd}"));
+                venvs.push(Some(cur_env.clone()));
+                continue;
+            }
+        }
+        let (c, kd) = next_candidate(&mut wl, &cur_env, versions.last().unwrap(), &k);
         versions.push(c);
         kinds.push(kd);
+        venvs.push(if cur_env != env { Some(cur_env.clone()) } else { None });
     }
     // timeline: upgrades at seeded times, clients joining in between, calls with delays that straddle upgrades
     let horizon = 100 * (nver as u32 + 1);
     let mut events = Vec::new();
     for c in 1..versions.len() {
-        events.push(Ev::Upgrade { at: sched.range(1, horizon as u64) as u32, candidate: c, text_gate: sched.chance(1, 5) });
+        let old_only: Vec<String> = env.0.keys().filter(|_| sched.chance(1, 3)).cloned().collect();
+        events.push(Ev::Upgrade { at: sched.range(1, horizon as u64) as u32, candidate: c, text_gate: sched.chance(1, 4), old_only });
     }
     // keep candidate order = time order (a candidate is derived from its predecessor)
     let mut times: Vec<u32> = events.iter().map(|e| e.at()).collect();
@@ -228,7 +315,7 @@ pub fn generate(_prop: &str, _tier: Tier, seed: u64, run: u64) -> Sc {
         events.push(Ev::NativePair { at: sched.range(0, horizon as u64) as u32, sender: s, receiver: r, vseed: wl.next_u64(), size: wl.range(0, 10) as usize });
     }
     events.sort_by_key(|e| e.at());
-    Sc { stack_kib, env, versions, kinds, events }
+    Sc { stack_kib, env, venvs, versions, kinds, events }
 }
 
 // ---------------------------------------------------------------- execution
@@ -304,8 +391,20 @@ fn decode_untyped(tenv: &TypeEnv, tys: &[SType], bytes: &[u8]) -> Result<Vec<AV>
 /// Returns the decoded values when the pair is gate-accepted and decoding worked.
 #[allow(clippy::too_many_arguments)]
 fn deliver(l: &mut Local, env: &SEnv, tenv: &TypeEnv, wire: &[SType], expect: &[SType], bytes: &[u8], what: &str, steps: &str) -> Option<Vec<AV>> {
+    deliver_gated(l, env, tenv, wire, expect, bytes, what, steps, false)
+}
+
+/// `accepted_by_text_gate`: the two parties are adjacent versions whose upgrade was accepted by
+/// service_compatible on .did text; that acceptance is then the "subtype check accepts" of C04.
+#[allow(clippy::too_many_arguments)]
+fn deliver_gated(l: &mut Local, env: &SEnv, tenv: &TypeEnv, wire: &[SType], expect: &[SType], bytes: &[u8], what: &str, steps: &str, accepted_by_text_gate: bool) -> Option<Vec<AV>> {
     l.op("delivery");
-    let gate = real_subtype(tenv, &tuple_of(wire), &tuple_of(expect));
+    let gate = if accepted_by_text_gate {
+        l.probe("delivery_judged_on_text_gate_acceptance");
+        Ok(true)
+    } else {
+        real_subtype(tenv, &tuple_of(wire), &tuple_of(expect))
+    };
     match gate {
         Err(e) if e.starts_with("panic:") => {
             l.v("gate-no-panic", format!("{}@{}", what, panic_key(&e)), format!("subtype check panicked on {} <: {}: {e}", show_types(wire), show_types(expect)));
@@ -511,17 +610,32 @@ fn run(sc: &Sc, log: bool) -> Local {
         "sender_type_uninhabited",
         "text_gate_used",
         "text_gate_panicked",
+        "delivery_judged_on_text_gate_acceptance",
         "native_receiver_positional_tuple_limit",
     ] {
         l.probes.entry(k.to_string()).or_insert(0);
     }
-    let env = &sc.env;
-    if !env_closed(env) || sc.versions.is_empty() || sc.versions.iter().any(|v| !closed(env, v)) {
+    // One world environment: the definitions of version v are renamed to `<name>__v<v>`, so that
+    // a definition may differ from version to version under the same source name.
+    let venv = |v: usize| -> &SEnv { sc.venvs.get(v).and_then(|e| e.as_ref()).unwrap_or(&sc.env) };
+    if sc.versions.is_empty() || (0..sc.versions.len()).any(|v| !env_closed(venv(v)) || !closed(venv(v), &sc.versions[v])) {
         return l;
     }
+    let mut world = SEnv::new();
+    let mut wversions: Vec<SType> = Vec::new();
+    for v in 0..sc.versions.len() {
+        let f = move |n: &str| format!("{n}__v{v}");
+        for (k, t) in rename_env(venv(v), &f).0 {
+            world.0.insert(k, t);
+        }
+        wversions.push(rename_type(&sc.versions[v], &f));
+    }
+    let env = &world;
     let tenv = to_env(env);
     let vg = ValGen::new(env, 140);
     let mut deployed: Vec<usize> = vec![0];
+    // how the version at each deployed position was accepted
+    let mut via_text: Vec<bool> = vec![false];
     let mut client_pos: BTreeMap<usize, usize> = BTreeMap::new();
     let mut heap: BinaryHeap<Reverse<(u32, u64, usize)>> = BinaryHeap::new();
     let mut pending: Vec<Option<Q>> = Vec::new();
@@ -550,15 +664,21 @@ fn run(sc: &Sc, log: bool) -> Local {
                         l.events.push(format!("t={now} client {client} joins at version #{}", deployed.len() - 1));
                     }
                 }
-                Ev::Upgrade { candidate, text_gate, .. } => {
-                    let Some(new) = sc.versions.get(*candidate) else { continue };
-                    let cur = &sc.versions[*deployed.last().unwrap()];
+                Ev::Upgrade { candidate, text_gate, old_only, .. } => {
+                    let Some(new) = wversions.get(*candidate) else { continue };
+                    let cur = &wversions[*deployed.last().unwrap()];
                     l.op("upgrade_attempt");
                     let accepted = if *text_gate {
                         l.probe("text_gate_used");
-                        let order: Vec<String> = env.0.keys().cloned().collect();
-                        let new_txt = show_prog(env, &order, Some(new));
-                        let old_txt = show_prog(env, &order, Some(cur));
+                        // each program is printed with its own definitions under their source names (so
+                        // names clash between the two programs, possibly with different bodies); a seeded
+                        // subset of the old program's definitions gets names that exist only there
+                        let cur_v = *deployed.last().unwrap();
+                        let (nenv, oenv) = (venv(*candidate), venv(cur_v));
+                        let f = |n: &str| if old_only.iter().any(|r| r == n) { format!("Old_{n}") } else { n.to_string() };
+                        let oenv2 = rename_env(oenv, &f);
+                        let new_txt = show_prog(nenv, &nenv.0.keys().cloned().collect::<Vec<_>>(), Some(&sc.versions[*candidate]));
+                        let old_txt = show_prog(&oenv2, &oenv2.0.keys().cloned().collect::<Vec<_>>(), Some(&rename_type(&sc.versions[cur_v], &f)));
                         match guard(|| service_compatible(CandidSource::Text(&new_txt), CandidSource::Text(&old_txt))) {
                             Guarded::Done(r) => r.is_ok(),
                             Guarded::Panicked(_) => {
@@ -590,6 +710,7 @@ fn run(sc: &Sc, log: bool) -> Local {
                     };
                     if accepted {
                         deployed.push(*candidate);
+                        via_text.push(*text_gate);
                         l.probe("upgrade_accepted_by_gate");
                         l.fault(&format!("upgrade:{}", sc.kinds.get(*candidate).map(|s| s.as_str()).unwrap_or("?")));
                     } else {
@@ -601,7 +722,7 @@ fn run(sc: &Sc, log: bool) -> Local {
                 }
                 Ev::Call { client, method_pick, vseed, budget, net_delay, reply_delay, relay, dup, .. } => {
                     let pos = *client_pos.get(client).unwrap_or(&0);
-                    let ver = &sc.versions[deployed[pos]];
+                    let ver = &wversions[deployed[pos]];
                     let ms = methods_of(ver);
                     if ms.is_empty() {
                         continue;
@@ -646,8 +767,8 @@ fn run(sc: &Sc, log: bool) -> Local {
             },
             Q::DeliverCall { bytes, from_pos, method, reply_delay, relay, client } => {
                 let spos = deployed.len() - 1;
-                let sender_ms = methods_of(&sc.versions[deployed[from_pos]]);
-                let recv_ms = methods_of(&sc.versions[deployed[spos]]);
+                let sender_ms = methods_of(&wversions[deployed[from_pos]]);
+                let recv_ms = methods_of(&wversions[deployed[spos]]);
                 let Some((_, wire_args, _, _)) = sender_ms.iter().find(|m| m.0 == method) else { continue };
                 let Some((_, exp_args, rets, _)) = recv_ms.iter().find(|m| m.0 == method) else {
                     l.v("gate-keeps-methods", format!("method {method}"), format!("method {method} of version #{from_pos} no longer exists in deployed version #{spos}"));
@@ -665,11 +786,12 @@ fn run(sc: &Sc, log: bool) -> Local {
                 if log {
                     l.events.push(format!("t={now} call {method} from #{from_pos} delivered to service at #{spos} [{steps}]"));
                 }
-                let direct = deliver(&mut l, env, &tenv, wire_args, exp_args, &bytes, &format!("call {method} #{from_pos}->#{spos}"), &steps);
+                let adjacent_text = spos == from_pos + 1 && via_text.get(spos).copied().unwrap_or(false);
+                let direct = deliver_gated(&mut l, env, &tenv, wire_args, exp_args, &bytes, &format!("call {method} #{from_pos}->#{spos}"), &steps, adjacent_text);
                 // relay at an intermediate version: decode, re-encode, forward
                 if let (Some(lag), Some(direct)) = (relay, &direct) {
                     let mpos = from_pos + (lag as usize % (spos - from_pos + 1));
-                    let relay_ms = methods_of(&sc.versions[deployed[mpos]]);
+                    let relay_ms = methods_of(&wversions[deployed[mpos]]);
                     if let Some((_, mid_args, _, _)) = relay_ms.iter().find(|m| m.0 == method) {
                         if real_subtype(&tenv, &tuple_of(wire_args), &tuple_of(mid_args)) == Ok(true) && real_subtype(&tenv, &tuple_of(mid_args), &tuple_of(exp_args)) == Ok(true) {
                             if let Some(at_mid) = deliver(&mut l, env, &tenv, wire_args, mid_args, &bytes, &format!("relay@#{mpos} of call {method}"), &steps) {
@@ -707,8 +829,8 @@ fn run(sc: &Sc, log: bool) -> Local {
                 }
             }
             Q::DeliverReply { bytes, service_pos, client_pos: cpos, method } => {
-                let svc_ms = methods_of(&sc.versions[deployed[service_pos]]);
-                let cl_ms = methods_of(&sc.versions[deployed[cpos]]);
+                let svc_ms = methods_of(&wversions[deployed[service_pos]]);
+                let cl_ms = methods_of(&wversions[deployed[cpos]]);
                 let (Some((_, _, wire_rets, _)), Some((_, _, exp_rets, _))) = (svc_ms.iter().find(|m| m.0 == method), cl_ms.iter().find(|m| m.0 == method)) else { continue };
                 let steps = steps_between(&deployed, cpos, service_pos);
                 if service_pos > cpos {
@@ -718,7 +840,8 @@ fn run(sc: &Sc, log: bool) -> Local {
                 if log {
                     l.events.push(format!("t={now} reply of {method} from service #{service_pos} delivered to client at #{cpos} [{steps}]"));
                 }
-                deliver(&mut l, env, &tenv, wire_rets, exp_rets, &bytes, &format!("reply {method} #{service_pos}->#{cpos}"), &steps);
+                let adjacent_text = service_pos == cpos + 1 && via_text.get(service_pos).copied().unwrap_or(false);
+                deliver_gated(&mut l, env, &tenv, wire_rets, exp_rets, &bytes, &format!("reply {method} #{service_pos}->#{cpos}"), &steps, adjacent_text);
             }
         }
     }
@@ -758,6 +881,7 @@ pub fn execute(sc: &Sc, ctx: &mut Ctx) -> Result<(), String> {
 
 pub fn size(sc: &Sc) -> usize {
     sc.env.0.values().map(|t| t.nodes()).sum::<usize>()
+        + sc.venvs.iter().flatten().map(|e| e.0.values().map(|t| t.nodes()).sum::<usize>()).sum::<usize>()
         + sc.versions.iter().map(|t| t.nodes()).sum::<usize>()
         + sc
             .events
@@ -793,6 +917,9 @@ pub fn shrink(sc: &Sc) -> Vec<Sc> {
             let mut s = sc.clone();
             s.versions.pop();
             s.kinds.pop();
+            if s.venvs.len() > s.versions.len() {
+                s.venvs.pop();
+            }
             out.push(s);
         }
     }
@@ -844,9 +971,15 @@ pub fn shrink(sc: &Sc) -> Vec<Sc> {
         }
         i += 1;
     }
-    if sc.env.0.keys().any(|k| !used.contains(k)) {
+    if sc.env.0.keys().any(|k| !used.contains(k)) && sc.venvs.iter().all(|e| e.is_none()) {
         let mut s = sc.clone();
         s.env.0.retain(|k, _| used.contains(k));
+        out.push(s);
+    }
+    // forget per-version definitions (every version uses the base environment)
+    if sc.venvs.iter().any(|e| e.is_some()) {
+        let mut s = sc.clone();
+        s.venvs = vec![None; sc.versions.len()];
         out.push(s);
     }
     out
